@@ -237,7 +237,15 @@ def main():
         pos = 0 if idx == 0 else (2 if idx == last else 1)
         reqs.append('c21 %s %s %s %s 3 %d 1 1' %
                     (m, thr, 'r' if cls == 'read' else 'w', e, pos))
-    rc, allowed, derr = batch([drv], reqs, timeout=1200)
+    # model sets for the ignored dispositions (asked in the same batch)
+    reqs2 = ['c21 c W w EPIPE 3 1 0 1', 'c21 c W w EFBIG 3 1 1 0',
+             'c21 copy M w EPIPE 2 1 0 1']
+    rc, allowed, derr = batch([drv], reqs + reqs2, timeout=1200)
+    rep2 = allowed[len(reqs):]
+    allowed = allowed[:len(reqs)]
+    if rep2 != ['hang=0 | end=exit:1 err=0'] * 3:
+        ck.broken.append('model: ignored SIGPIPE/SIGXFSZ should give exit 1, '
+                         'silent; driver says %s' % rep2)
     if len(allowed) != len(reqs):
         ck.broken.append('driver: %d replies for %d requests' %
                          (len(allowed), len(reqs)))
@@ -419,13 +427,6 @@ def main():
                       (m, b), {'argv': [exe] + args, 'stdin': 'a directory',
                                'observed': str(r)})
         distinct.add((m, 'eisdir', r['end']))
-    # model sets for the ignored dispositions (spot check of the driver)
-    reqs2 = ['c21 c W w EPIPE 3 1 0 1', 'c21 c W w EFBIG 3 1 1 0',
-             'c21 copy M w EPIPE 2 1 0 1']
-    rc, rep2, _ = batch([drv], reqs2)
-    if rep2 != ['hang=0 | end=exit:1 err=0'] * 3:
-        ck.broken.append('model: ignored SIGPIPE/SIGXFSZ should give exit 1, '
-                         'silent; driver says %s' % rep2)
 
     if len(ck.broken) > 12:
         ck.broken[12:] = ['... %d more' % (len(ck.broken) - 12)]
